@@ -2,6 +2,8 @@
 # Build the framework from files on disk only: translators -> coq/Gen, full .vo build, extraction, OCaml driver.
 # Fails if anything a claimed check needs (its Props file, the extraction) does not build.
 cd "$(dirname "$0")"
+# always a clean build: stale .vo files (copied sandboxes, interrupted edits) make Coq report inconsistent assumptions
+find coq -name "*.vo" -o -name "*.vok" -o -name "*.vos" -o -name "*.glob" -o -name ".*.aux" | xargs rm -f
 export PYTHONPATH=/repo:/verif/tools PYTHONHASHSEED=0 PYTHONDONTWRITEBYTECODE=1
 /venv/bin/python -W ignore - <<'PY'
 import json, os, sys, vlib
